@@ -126,7 +126,8 @@ def run_once(ids, beh, dedicated, rate, timeout, keep, consume):
             tq = getattr(eq, '_compare_tasks', None)
             rq = getattr(eq, '_compare_results', None)
             return dict(term=bool(ev.flag) if hasattr(ev, 'flag') else None,
-                        left=[len(getattr(tq, 'items', [])), len(getattr(rq, 'items', []))])
+                        left=[len(getattr(tq, 'items', [])), len(getattr(rq, 'items', []))],
+                        lock=bool(getattr(tq, 'poisoned', False)))
 
         _snap = sim.snapshot
         sim.snapshot = lambda: dict(_snap(), **extra())
@@ -181,7 +182,7 @@ def run_once(ids, beh, dedicated, rate, timeout, keep, consume):
         workers = [[o, [unrid(x) for x in served], s0, s1]
                    for (o, served, s0), (_, _, s1) in zip(before['workers'], after['workers'])]
         return dict(cmps=out, outcome=outcome, polls=before['polls'], workers=workers, events=after['events'],
-                    left=before['left'], term=before['term'], clock=before['clock'], max_live=after['max_live'])
+                    left=before['left'], lock=before['lock'], term=before['term'], clock=before['clock'], max_live=after['max_live'])
     finally:
         restore()
 
